@@ -15,6 +15,60 @@ def known_functions():
     return set(json.load(open(p))["functions"])
 
 
+def known_signatures():
+    p = os.path.join(VERIF, "tables", "known_functions.json")
+    if not os.path.exists(p):
+        return {}
+    return json.load(open(p)).get("signatures", {})
+
+
+def alias_renamed(prog, known):
+    """a reviewed function that is gone while exactly one new function with the same signature appeared in the same
+    impl / module has been renamed: the new function answers to the old name (rules are anchored in names)"""
+    sigs = known_signatures()
+    crates = {f["crate"] for f in prog.fns.values() if "crate" in f}
+    new = [k for k, f in prog.fns.items() if k.startswith("inkayaku_") and k not in known and "::promoted[" not in k and "{closure" not in k and not f.get("test")]
+    out = []
+    if not new:
+        return out
+    gone = [k for k in sigs if k not in prog.fns and k.split("::", 1)[0] in crates]
+    for old in gone:
+        parent = old.rsplit("::", 1)[0]
+        cands = []
+        for k in new:
+            if k.rsplit("::", 1)[0] != parent:
+                continue
+            f = prog.fns[k]
+            n = f["args"] if isinstance(f["args"], int) else len(f["args"])
+            if [l["ty"] for l in f["locals"][:n + 1]] == sigs[old]:
+                cands.append(k)
+        same_sig_gone = [g for g in gone if g.rsplit("::", 1)[0] == parent and sigs[g] == sigs[old]]
+        if len(cands) == 1 and len(same_sig_gone) == 1:
+            out.append((old, cands[0]))
+    for old, nk in out:
+        f = prog.fns.pop(nk)
+        f["renamed_from"] = nk
+        f["key"] = old
+        prog.fns[old] = f
+        if nk in prog.fn_crate:
+            prog.fn_crate[old] = prog.fn_crate.pop(nk)
+        for k in [k for k in prog.fns if k.startswith(nk + "::")]:
+            g = prog.fns.pop(k)
+            g["key"] = old + k[len(nk):]
+            if g.get("parent") == nk:
+                g["parent"] = old
+            prog.fns[g["key"]] = g
+        for g in prog.fns.values():
+            for b in g["blocks"]:
+                t = b["term"]
+                if t["k"] == "call":
+                    c = t["callee"]
+                    for fld in ("key", "orig"):
+                        if c.get(fld) == nk:
+                            c[fld] = old
+    return out
+
+
 def _remap(node, lo, bo):
     """deep copy of a MIR fragment with local indices shifted by lo and block indices by bo"""
     if isinstance(node, dict):
@@ -44,6 +98,7 @@ def inline_new_helpers(prog):
     known = known_functions()
     if known is None:
         return []
+    prog.renamed = alias_renamed(prog, known)
     new = {k for k, f in prog.fns.items() if k.startswith("inkayaku_") and k not in known and f.get("kind") != "promoted" and "{closure" not in k and not f.get("test")}
     if not new:
         return []
@@ -82,6 +137,7 @@ def inline_new_helpers(prog):
                         nb["term"] = {"k": "goto", "line": nb["term"].get("line", 0), "exp": False, "target": target}
                     f["blocks"].append(nb)
                 done.append((k, ck))
+                prog.inline_sites.append({"caller": k, "callee": ck, "local_offset": lo, "block": bi, "entry": bo})
                 changed = True
         if not changed:
             break
@@ -109,6 +165,7 @@ def inline_new_helpers(prog):
         f = prog.fns.get(ck)
         if f is None or f.get("is_pub") and False:
             continue
+        prog.helper_bodies[ck] = prog.fns[ck]
         del prog.fns[ck]
         prog.fn_crate.pop(ck, None)
         for k in [k for k in prog.fns if k.startswith(ck + "::promoted[")]:
